@@ -3,6 +3,7 @@ Utility functions and classes for PyFVTool core code
 """
 from collections.abc import Callable
 import numpy as np
+from . import _verif_trace as _vt
 
 
 
@@ -191,6 +192,7 @@ class TrackedArray(np.ndarray):
         # Inherit _modified from parent, or initialize to False
         self._modified = getattr(obj, '_modified', False)
     
+    @_vt.traced("setitem", _vt.d_setitem)
     def __setitem__(self, key, value):
         super().__setitem__(key, value)
         # Mark this array and its base (if it's a view) as modified
@@ -207,6 +209,7 @@ class TrackedArray(np.ndarray):
         return self._modified
     
     @modified.setter
+    @_vt.traced("setflag", _vt.d_setflag)
     def modified(self, value):
         """Set the modification tracking flag."""
         self._modified = bool(value)
